@@ -25,3 +25,23 @@ def run(ctx):
     rnd = [("rnd-plain", n, ["req=0:3115b50900", "buslost=1"]), ("rnd-enh", n, ["enhanced=1", "req=0:3115b50900", "buslost=1"])]
     pc.run_configs(ctx, "C01", "r", THOROUGH if ctx.thorough else QUICK, random_runs=rnd,
                    spec_fidelity=[("S:plain-nn1", ["submit=0", "nn=1", "snn=1"], 8)], spec_mc=True)
+    telegram_lemma(ctx)
+
+
+def telegram_lemma(ctx):
+    """P-internal lemma (no code involved): the incremental reference parser RecvMon accepts exactly the language of the
+    declarative telegram grammar (spec/EbusTelegram.tla) on well-formed telegrams of every kind and all their one-symbol
+    mutations.  A disagreement means the oracle itself is inconsistent: machinery failure (exit 2), never a verdict."""
+    from vf import tlc
+    env = {"VF_CFG": '{"own":49,"lock":3,"gensyn":0,"readonly":0,"answers":[]}'}
+    if not ctx.thorough:
+        env["VF_TELEGRAM_QUICK"] = "1"
+    r = tlc.run("EbusTelegram", "EbusTelegram.cfg", env=env, workers=12, timeout=3000, cont=True, heap="8g")
+    st = [v for v in r["vf"] if v[1] == "STAT"]
+    bad = [v for v in r["vf"] if v[1] == "BAD"]
+    ctx.coverage["p_lemma_grammar_equals_parser"] = {
+        "base_telegrams": len(st), "wire_sequences": sum(v[2] for v in st), "with_a_reported_telegram": sum(v[3] for v in st),
+        "left_open_by_P": sum(v[4] for v in st), "disagreements": len(bad), "wall_s": r["wall_s"]}
+    ctx.log("telegram lemma", ctx.coverage["p_lemma_grammar_equals_parser"])
+    if bad or r["violated"] or not st:
+        raise RuntimeError("EbusTelegram lemma failed (the C01 oracle and the telegram grammar disagree): %s" % (bad[:2],))
